@@ -534,8 +534,16 @@ func solveRace(file string, timeoutS int, confirm bool) (solveResult, []solveRes
 	return best, all
 }
 
+var gShortTimeout = map[string]bool{}
+
 // dischargeAll runs all obligations with a worker pool.
 func dischargeAll(q *Query, outDir string, timeoutS int, confirm bool, workers int) {
+	if v := os.Getenv("GOVC_WORKERS"); v != "" {
+		var n int
+		if _, err := fmt.Sscanf(v, "%d", &n); err == nil && n > 0 {
+			workers = n
+		}
+	}
 	os.MkdirAll(outDir, 0o755)
 	var wg sync.WaitGroup
 	sem := make(chan struct{}, workers)
@@ -554,6 +562,9 @@ func dischargeAll(q *Query, outDir string, timeoutS int, confirm bool, workers i
 			to := timeoutS
 			if o.ExpectSat && to > 3 {
 				to = 3
+			}
+			if gShortTimeout[o.Name] && to > 5 {
+				to = 5 // obligations listed as known findings / unclaimed are expected not to discharge
 			}
 			res, _ := solveRace(file, to, confirm && !o.ExpectSat)
 			o.Status, o.Solver, o.Time = res.status, res.solver, res.secs
